@@ -360,7 +360,7 @@ def cases(rng, tier):
     for t in exhaustive_lines(): out.append((T("M", t), "exhaustive-lines"))
     for t in exhaustive_rank_tokens(4 if not thorough else 5): out.append((T("M", t), "exhaustive-rank-tokens"))
     # well-formed stream
-    n = 3000 if not thorough else 20000
+    n = 5000 if not thorough else 50000
     bases = []
     for i in range(n):
         r = rng.random()
@@ -374,7 +374,7 @@ def cases(rng, tier):
         if k == 0: out.append((T("C", serialize(d), d, flags(rng)), "wf-canonical-text"))
         elif k in (1, 2): out.append((T("V", variant_text(rng, d), d, flags(rng)), "wf-variant"))
         else: out.append((T("X", variant_text(rng, d, exotic=True), d, flags(rng)), "wf-exotic-variant"))
-    for _ in range(300 if not thorough else 3000):
+    for _ in range(400 if not thorough else 5000):
         out.append((W(nonwf_desc(rng), flags(rng)), "nonwf-desc"))
     # BDD automata on the process-wide default alphabet: a small fixed pool of symbol names
     for _ in range(60 if not thorough else 600):
@@ -388,7 +388,7 @@ def cases(rng, tier):
         out.append((o1_case(rand_desc(rng, maxar=2)), "o1-result-alphabet"))
     # malformed stream
     for t in long_texts(rng, tier): out.append((T("M", t), "long"))
-    n = 9000 if not thorough else 60000
+    n = 14000 if not thorough else 150000
     for i in range(n):
         d = bases[rng.randrange(len(bases))]
         t, fam = malformed(rng, d)
@@ -493,4 +493,4 @@ LEVEL_NOTE = ("Proved: the round trip parse(serialize d) for the canonical outpu
               "No axioms (Print Assumptions: closed under the global context).")
 TECHNIQUE = "Coq proof of a byte-level parser/serializer model + verified gate deciders; extracted-model correspondence against libvata on generated descriptions and texts"
 DESIGN_REF = "DESIGN.md 5/C13"
-READY = False
+READY = True
